@@ -351,3 +351,37 @@ fn probe_normal_reader_detects_alterations_any_config() {
         }
     }
 }
+
+/// C07: toggling layers on a configuration keeps the secrets drawn at creation: no sequence of enable / disable / set calls makes
+/// two configurations share their key or nonce, or leaves a constant (all-zero) key
+#[test]
+fn probe_layer_toggling_keeps_fresh_secrets() {
+    let mut seen_keys = Vec::new();
+    let mut seen_nonces = Vec::new();
+    for seq in 0..6 {
+        let mut c = ArchiveWriterConfig::new();
+        match seq {
+            0 => { c.enable_layer(Layers::ENCRYPT); }
+            1 => { c.disable_layer(Layers::ENCRYPT); c.enable_layer(Layers::ENCRYPT); }
+            2 => { c.disable_layer(Layers::DEFAULT); c.set_layers(Layers::ENCRYPT | Layers::COMPRESS); }
+            3 => { c.set_layers(Layers::EMPTY); c.set_layers(Layers::ENCRYPT); }
+            4 => { c.enable_layer(Layers::ENCRYPT); c.disable_layer(Layers::ENCRYPT); c.disable_layer(Layers::ENCRYPT); c.enable_layer(Layers::ENCRYPT); }
+            _ => { c.set_layers(Layers::DEFAULT); c.disable_layer(Layers::COMPRESS); }
+        }
+        c.add_public_keys(&[pkeys().1]);
+        let key = *c.encryption_key();
+        let nonce = *c.encryption_nonce();
+        assert!(key != [0u8; 32], "call sequence {seq}: the symmetric key is all zeros");
+        assert!(!seen_keys.contains(&key), "call sequence {seq}: symmetric key already used by another configuration");
+        assert!(!seen_nonces.contains(&nonce), "call sequence {seq}: nonce prefix already used by another configuration");
+        seen_keys.push(key);
+        seen_nonces.push(nonce);
+        // and the archive opens with the recipient's key
+        let mut w = ArchiveWriter::from_config(Vec::new(), c).unwrap();
+        w.add_file("f", 3, &b"abc"[..]).unwrap();
+        w.finalize().unwrap();
+        let layers = if seq == 2 || seq == 5 && false { Layers::ENCRYPT } else { Layers::ENCRYPT };
+        let got = pread_all(Cursor::new(w.into_raw()), layers);
+        assert!(got == vec![("f".to_string(), b"abc".to_vec())], "call sequence {seq}: archive does not read back");
+    }
+}
